@@ -74,15 +74,17 @@ def make_frame(case):
     if levels:
         counter = {}
         arrays = [[] for _ in levels] + [[]]
-        for k in case["keys"]:
+        for i, k in enumerate(case["keys"]):
             k = tuple(k)
             counter[k] = counter.get(k, -1) + 1
             for a, v in zip(arrays, k):
                 a.append(v)
-            arrays[-1].append(counter[k])
+            arrays[-1].append(case["idx"][i] if case.get("idx") else counter[k])
         index = pd.MultiIndex.from_arrays(arrays, names=list(levels) + ["cycle_number"])
     else:
-        index = pd.Index(range(len(rows)), name="cycle_number" if case.get("named_axis") else None)
+        # `idx`: explicit labels, possibly repeated (pd.concat of recorded blocks, each numbered from 0)
+        index = pd.Index(case["idx"] if case.get("idx") else range(len(rows)),
+                         name="cycle_number" if case.get("named_axis") else None)
     return pd.DataFrame(data, index=index)
 
 
@@ -184,6 +186,16 @@ def gen_levels(rng, n):
     return levels, keys
 
 
+def gen_idx(rng, n):
+    """Cycle labels with repetitions: blocks that restart at 0 (pd.concat of recordings) or a few random labels."""
+    if n < 2 or rng.random() < 0.55:
+        return None
+    if rng.random() < 0.6:
+        k = rng.randint(1, max(1, n - 1))
+        return [i % k for i in range(n)]
+    return [rng.randint(0, max(1, n // 2)) for _ in range(n)]
+
+
 class C14(Prop):
     ID = "C14"
     SOURCES = SOURCES
@@ -194,6 +206,7 @@ class C14(Prop):
         "histogram_exactly_one_class", "histogram_partition", "histogram2d_partition", "range_hist_is_marginal",
         "rebin_conserves_total", "rebin_zero_width_class_lost", "rebin_same_binning_id", "rebin_compose_literal_false",
         "rebin_compose_conserves_total", "rebin_compose_of_refines", "rebin_compose_of_breaks_subset",
+        "rebin2d_cell_is_product", "rebin2d_conserves_total", "rebin2d_by_level_name",
         "combine_sum_conserves")]
     PARTIAL = {}
     RULE = ("case kinds: coll (rows from/to/cycles or range/mean; derived quantities; scale/shift by scalar or Series), "
@@ -210,7 +223,7 @@ class C14(Prop):
         "theorems are over the real numbers: rounding of class shares and weighted sums is not modelled (correspondence uses dyadic inputs; "
         "the oracle uses a relative tolerance of 1e-9 where a sum is re-associated)",
         "re-binning: source classes of zero width are outside the theorems' guard (the code silently drops their content); "
-        "NaN contents and nan_default=True are not modelled; LoadHistogram.scale with a negative factor is rejected by pandas (left > right)",
+        "NaN contents, nan_default=True and an integer class count for a two-level histogram are not modelled; a two-level histogram is a list of cells with two interval levels (further non-interval levels are documented as unsupported by the code); LoadHistogram.scale with a negative factor is rejected by pandas (left > right)",
         "the pandas interval labels '(a, b]' of a histogram are labels only; class membership follows numpy's rule (a <= v < b, last class closed)",
     ]
 
@@ -218,7 +231,8 @@ class C14(Prop):
         self.stats = {"kinds": {}, "bins": {}, "errors": {}, "on_edge_values": 0, "out_of_range_rows": 0,
                       "rows_total": 0, "groups_max": 0, "with_cycles": 0, "from_gt_to": 0, "from_lt_to": 0, "from_eq_to": 0,
                       "single_class": 0, "zero_width_class": 0, "rebin_covered": 0, "rebin_not_covered": 0,
-                      "rebin_refining": 0, "operand": {}}
+                      "rebin_refining": 0, "operand": {}, "repeated_index_labels": 0,
+                      "repeated_index_labels_with_cycles": 0}
         self.exhaustive = False
 
     # -------------------------------------------------------------- generation
@@ -229,20 +243,22 @@ class C14(Prop):
         edge_alpha = [0.0, 1.0, 2.0, 3.0]
         self.exhaustive = True
         self.stats["exhaustive_scope"] = (f"all collectives of 1..2 rows with from,to in {alpha} x all increasing edge lists "
-                                          f"over {edge_alpha} (>= 2 edges) x range_histogram and histogram")
+                                          f"over {edge_alpha} (>= 2 edges) x range_histogram and histogram"
+                                          + ("" if thorough else " (histogram: one-row collectives)"))
         rows1 = [[a, b, 1.0] for a in alpha for b in alpha]
         edge_lists = [list(c) for k in range(2, len(edge_alpha) + 1) for c in itertools.combinations(edge_alpha, k)]
         colls = [[r] for r in rows1] + [[r, s] for r in rows1 for s in rows1 if (r <= s)]
         for coll in colls:
             for e in edge_lists:
-                for which in ("range", "rm"):
+                # class membership is decided row by row: the quick tier runs the range/mean matrix on the one-row collectives only
+                for which in (("range", "rm") if thorough or len(coll) == 1 else ("range",)):
                     yield {"kind": "hist", "which": which, "rows": coll, "bins": {"t": "edges", "e": e}, "exh": True}
         n = 500 if not thorough else 6000
         for _ in range(n):
             yield from self._random_case(rng)
 
     def _random_case(self, rng):
-        kind = rng.choice(["coll", "coll", "hist", "hist", "hist", "hist", "lh", "rebin", "rebin", "rebin", "combine"])
+        kind = rng.choice(["coll", "coll", "hist", "hist", "hist", "hist", "lh", "rebin", "rebin", "rebin", "rebin2d", "rebin2d", "combine"])
         if kind == "coll":
             n = rng.choice([1, 2, 3, 5, 8])
             with_c = rng.random() < 0.5
@@ -252,7 +268,12 @@ class C14(Prop):
                 rows = [[abs(r[0]), r[1], r[2]] for r in rows]   # range >= 0, mean
             levels, keys = gen_levels(rng, n)
             case = {"kind": "coll", "form": form, "rows": rows, "cycles": with_c, "levels": levels, "keys": keys}
+            idx = gen_idx(rng, n)
+            if idx:
+                case["idx"] = idx
             opk = rng.choice(["scalar", "scalar", "series_level", "series_new"]) if levels else rng.choice(["scalar", "scalar", "series_new"])
+            if idx:
+                opk = "scalar"     # Series operands on repeated labels are the broadcaster's business (C13), pandas refuses them
             case["op"] = rng.choice(["scale", "shift"])
             if opk == "scalar":
                 case["operand"] = {"t": "scalar", "v": rng.choice([dy(rng, -4, 4, 4), 0.0, 1.0, -1.0, 2.5])}
@@ -287,6 +308,10 @@ class C14(Prop):
                     "levels": levels, "keys": keys, "axis": "cycle_number" if levels else None}
             if not levels and rng.random() < 0.3:
                 case["named_axis"] = True
+            if which != "rec":
+                idx = gen_idx(rng, n)
+                if idx:
+                    case["idx"] = idx
             yield case
         elif kind == "lh":
             n = rng.choice([1, 2, 4])
@@ -301,6 +326,8 @@ class C14(Prop):
                    "neg": rng.choice([None, None, -1.0, -0.5])}
         elif kind == "rebin":
             yield self._rebin_case(rng)
+        elif kind == "rebin2d":
+            yield self._rebin2d_case(rng)
         else:
             k = rng.choice([1, 2, 3, 4])
             hists = []
@@ -318,6 +345,40 @@ class C14(Prop):
                     h.append([l, r, float(rng.randint(0, 40)) / 4])
                 hists.append(h)
             yield {"kind": "combine", "hists": hists}
+
+    def _rebin2d_case(self, rng):
+        """Two interval levels; target as MultiIndex (levels in the histogram's order or swapped) or one IntervalIndex."""
+        def breaks(lo, hi, m):
+            b = sorted({lo + (hi - lo) * rng.randint(0, 16) / 16 for _ in range(m + 1)} | {lo, hi})
+            return b
+        names = rng.choice([["from", "to"], ["range", "mean"], ["to", "from"]])
+        xlo = dy(rng, -4, 4, 2)
+        xhi = xlo + rng.choice([1.0, 2.0, 8.0])
+        if rng.random() < 0.35:
+            ylo, yhi = xlo, xhi                       # rainflow matrix: both axes cover the same extent
+        else:
+            ylo = dy(rng, -20, 20, 2)
+            yhi = ylo + rng.choice([0.5, 4.0, 10.0, 40.0])
+        ax, ay = breaks(xlo, xhi, rng.randint(1, 3)), breaks(ylo, yhi, rng.randint(1, 3))
+        ncell = (len(ax) - 1) * (len(ay) - 1)
+        vals = [float(rng.choice([0, 1, 2, 3, 5, 10, 40])) for _ in range(ncell)]
+        drop = sorted(rng.sample(range(ncell), rng.randint(0, ncell - 1))) if rng.random() < 0.25 else []
+        tk = rng.choice(["same", "swapped", "swapped", "swapped", "plain", "identity", "identity_swapped"])
+        case = {"kind": "rebin2d", "names": names, "ax": ax, "ay": ay, "vals": vals, "drop": drop}
+        if tk in ("identity", "identity_swapped"):
+            case["drop"] = []
+            case["target"] = {"t": "multi", "order": "swapped" if tk.endswith("swapped") else "same", "bx": ax, "by": ay}
+        elif tk == "plain":
+            lo, hi = min(xlo, ylo) - rng.choice([0.0, 1.0]), max(xhi, yhi) + rng.choice([0.0, 1.0])
+            case["target"] = {"t": "plain", "b": breaks(lo, hi, rng.randint(1, 4))}
+        else:
+            cover = rng.random() < 0.85
+            def tb(lo, hi):
+                a = lo - rng.choice([0.0, 0.0, 0.5]) if cover else lo + (hi - lo) / 4
+                b = hi + rng.choice([0.0, 0.0, 2.0])
+                return breaks(a, b, rng.randint(1, 4))
+            case["target"] = {"t": "multi", "order": tk, "bx": tb(xlo, xhi), "by": tb(ylo, yhi)}
+        return case
 
     def _rebin_case(self, rng):
         style = rng.choice(["breaks", "breaks", "arb"])
@@ -414,10 +475,70 @@ class C14(Prop):
                     c = case["target2"]
                     lines.append(f"c14 rebin2 {len(t['b'])} {hx(t['b'])} {len(c)} {hx(c)} {flat}")
             return lines
+        if k == "rebin2d":
+            n1, n2 = case["names"]
+            t = case["target"]
+            if t["t"] == "plain":
+                tl = [(n1, t["b"]), (n2, t["b"])]
+            else:
+                tl = [(n1, t["bx"]), (n2, t["by"])]
+                if t["order"] == "swapped":
+                    tl.reverse()
+            cells = " ".join(hx(c) for c in self._cells(case))
+            return [f"c14 rebin2d {n1} {n2} " + " ".join(f"{nm} {len(b)} {hx(b)}" for nm, b in tl) + " " + cells]
         if k == "combine":
             hs = case["hists"]
             return [f"c14 combine {len(hs)} {' '.join(str(len(h)) for h in hs)} {' '.join(hx(b) for h in hs for b in h)}".rstrip()]
         return []
+
+    @staticmethod
+    def _cells(case):
+        ax, ay = case["ax"], case["ay"]
+        ny = len(ay) - 1
+        out = []
+        for i in range(len(ax) - 1):
+            for j in range(ny):
+                k = i * ny + j
+                if k not in case["drop"]:
+                    out.append([ax[i], ax[i + 1], ay[j], ay[j + 1], case["vals"][k]])
+        return out
+
+    @staticmethod
+    def _hist2(case):
+        cells = C14._cells(case)
+        ix = pd.MultiIndex.from_arrays([pd.IntervalIndex.from_arrays([c[0] for c in cells], [c[1] for c in cells]),
+                                        pd.IntervalIndex.from_arrays([c[2] for c in cells], [c[3] for c in cells])],
+                                       names=case["names"])
+        return pd.Series([c[4] for c in cells], index=ix, dtype=float)
+
+    @staticmethod
+    def _target2(case, order=None):
+        t = case["target"]
+        if t["t"] == "plain":
+            return pd.IntervalIndex.from_breaks(t["b"]), t["b"], t["b"]
+        n1, n2 = case["names"]
+        lv = [(n1, pd.IntervalIndex.from_breaks(t["bx"])), (n2, pd.IntervalIndex.from_breaks(t["by"]))]
+        if (order or t["order"]) == "swapped":
+            lv.reverse()
+        return pd.MultiIndex.from_product([l[1] for l in lv], names=[l[0] for l in lv]), t["bx"], t["by"]
+
+    @staticmethod
+    def _matrix2(case, res, bx, by):
+        """Row-major contents of the result for the requested classes; None if the result has other classes."""
+        n1, n2 = case["names"]
+        if list(res.index.names) != [n1, n2]:
+            return None
+        a, b = res.index.get_level_values(n1), res.index.get_level_values(n2)
+        got = {}
+        for xl, xr, yl, yr, v in zip(a.left, a.right, b.left, b.right, res.to_numpy(dtype=float)):
+            key = (float(xl), float(xr), float(yl), float(yr))
+            if key in got:
+                return None
+            got[key] = float(v)
+        want = [(bx[i], bx[i + 1], by[j], by[j + 1]) for i in range(len(bx) - 1) for j in range(len(by) - 1)]
+        if len(got) != len(want) or any(k not in got for k in want):
+            return None
+        return [got[k] for k in want]
 
     def _expanded_operands(self, case, rows):
         """(row, factor) pairs in the order the real result has them (row-major: row, then the operand's own level)."""
@@ -432,6 +553,7 @@ class C14(Prop):
 
     # -------------------------------------------------------------- implementation side
     def impl_lines(self, case):
+        mods()
         with warnings.catch_warnings():
             warnings.simplefilter("ignore")
             return self._impl_lines(case)
@@ -443,6 +565,10 @@ class C14(Prop):
         m = mods()
         k = case["kind"]
         self._count("kinds", k)
+        if k in ("hist", "coll") and case.get("idx") and len(set(case["idx"])) < len(case["idx"]):
+            self.stats["repeated_index_labels"] += 1
+            if case.get("cycles"):
+                self.stats["repeated_index_labels_with_cycles"] += 1
         if k == "coll":
             df = make_frame(case)
             lc = df.load_collective
@@ -506,6 +632,16 @@ class C14(Prop):
                         lines.append(err(e))
             self.stats["rebin_covered" if covered else "rebin_not_covered"] += 1
             return lines
+        if k == "rebin2d":
+            target, bx, by = self._target2(case)
+            self._count("bins", "rebin2d:" + case["target"]["t"] + ":" + case["target"].get("order", ""))
+            try:
+                r = m["rebin"](self._hist2(case), target)
+            except Exception as e:
+                self._count("errors", "rebin2d:" + type(e).__name__)
+                return [err(e)]
+            mat = self._matrix2(case, r, bx, by)
+            return [hx(mat)] if mat is not None else ["err:classes"]
         if k == "combine":
             hs = [pd.Series([b[2] for b in h], index=pd.IntervalIndex.from_arrays([b[0] for b in h], [b[1] for b in h]), dtype=float)
                   for h in case["hists"]]
@@ -601,7 +737,7 @@ class C14(Prop):
     def compare(self, case, model_out, impl_out):
         if len(model_out) != len(impl_out):
             return f"length {len(model_out)} vs {len(impl_out)}"
-        tol = case["kind"] in ("rebin", "combine")
+        tol = case["kind"] in ("rebin", "rebin2d", "combine")
         for i, (a, b) in enumerate(zip(model_out, impl_out)):
             if a == b:
                 continue
@@ -635,6 +771,7 @@ class C14(Prop):
 
     # -------------------------------------------------------------- oracle
     def oracle(self, case):
+        mods()      # registers the accessors (the oracle may run without a preceding correspondence pass)
         with warnings.catch_warnings():
             warnings.simplefilter("ignore")
             return getattr(self, "_oracle_" + case["kind"])(case)
@@ -870,6 +1007,37 @@ class C14(Prop):
                     return (f"A->B->C {list(r2)} != A->C {list(d)} although B={b} refines A", "rebin-compose")
         return None
 
+    def _oracle_rebin2d(self, case):
+        m = mods()
+        h = self._hist2(case)
+        total = float(h.sum())
+        n1, n2 = case["names"]
+        res = {}
+        for order in (["same", "swapped"] if case["target"]["t"] == "multi" else ["plain"]):
+            target, bx, by = self._target2(case, order)
+            try:
+                r = m["rebin"](h, target)
+            except Exception as e:
+                return (f"two-level rebin_histogram ({order} level order) raises {type(e).__name__}: {e}", "rebin2d-error")
+            mat = self._matrix2(case, r, bx, by)
+            if mat is None:
+                return (f"two-level re-bin ({order} level order of the target): the result does not have the requested classes "
+                        f"{n1}: {bx}, {n2}: {by} (got levels {list(r.index.names)}, {len(r)} cells)", "rebin2d-classes")
+            covered = bx[0] <= case["ax"][0] and bx[-1] >= case["ax"][-1] and by[0] <= case["ay"][0] and by[-1] >= case["ay"][-1]
+            if covered and not core.close(sum(mat), total, rtol=1e-9):
+                return (f"two-level re-bin ({order} level order of the target) to a covering binning: total {sum(mat)} != {total}", "rebin2d-total")
+            if not covered and sum(mat) > total * (1 + 1e-9) + 1e-12:
+                return (f"two-level re-bin created cycles: {sum(mat)} > {total}", "rebin2d-total")
+            if not case["drop"] and bx == case["ax"] and by == case["ay"]:
+                if any(not core.close(x, y, rtol=1e-12) for x, y in zip(mat, case["vals"])):
+                    return (f"re-bin to the same two-level binning ({order} level order) changed the contents: {mat} != {case['vals']}", "rebin2d-identity")
+            res[order] = mat
+        if len(res) == 2:
+            sc = max(total, 1.0)
+            if any(abs(x - y) > 1e-9 * sc for x, y in zip(res["same"], res["swapped"])):
+                return (f"the level order of the target changes the result: {res['same']} vs {res['swapped']}", "rebin2d-level-order")
+        return None
+
     def _oracle_combine(self, case):
         m = mods()
         hs = [pd.Series([b[2] for b in h], index=pd.IntervalIndex.from_arrays([b[0] for b in h], [b[1] for b in h]), dtype=float)
@@ -894,6 +1062,8 @@ class C14(Prop):
     def shrink(self, case, still_fails):
         cur = json.loads(json.dumps(case))
         key = {"coll": "rows", "hist": "rows", "rebin": "src", "lh": "classes"}.get(cur["kind"])
+        if cur["kind"] in ("coll", "hist") and cur.get("idx"):
+            pass
         if key is None:
             return cur
         changed = True
@@ -902,7 +1072,7 @@ class C14(Prop):
             for i in range(len(cur[key])):
                 cand = json.loads(json.dumps(cur))
                 del cand[key][i]
-                for par in ("keys", "vals"):
+                for par in ("keys", "vals", "idx"):
                     if cand.get(par):
                         del cand[par][i]
                 try:
